@@ -60,6 +60,12 @@ def describe_rv(body, rv, depth=6):
             d = body.single_def(pl['l'])
             if d and d[0] == 'stmt' and d[3]['rv']['k'] == 'use' and is_const(d[3]['rv']['op']):
                 return '&' + describe(body, d[3]['rv']['op'], depth - 1)
+            if d and d[0] == 'call':
+                # reborrow of a reference returned by a call: &*f(..) is f(..)
+                return describe(body, {'k': 'copy', 'pl': {'l': pl['l'], 'p': []}}, depth - 1)
+            if d and d[0] == 'stmt' and d[3]['rv']['k'] in ('ref', 'rawptr', 'use', 'cast') and not (1 <= pl['l'] <= body.arg_count):
+                # reborrow of a reference held in a temporary: &*(&X) is &X
+                return describe_rv(body, d[3]['rv'], depth - 1)
         return '&' + pretty_place(body, pl)
     if k == 'cast':
         return describe(body, rv['op'], depth - 1)
